@@ -25,8 +25,9 @@ pub const INC_IN_FILTER: usize = 14;
 pub const INC_IN_CALL_BODY: usize = 15;
 pub const COMP_IN_CAPTURE: usize = 16;
 pub const COMP_REENTRY: usize = 17;
+pub const OWN_COMP: usize = 18;
 
-pub const SITES: [&str; 18] = [
+pub const SITES: [&str; 19] = [
     "top",               // entry template, top level
     "block",             // inside a block of the entry template (which extends base.html)
     "super",             // block of the parent, reached through super() of the entry template
@@ -51,6 +52,10 @@ pub const SITES: [&str; 18] = [
     // comps.html (seeded change C12-9: the line table used for the `called from` notes was switched
     // to another template and never switched back)
     "comp-reentry",
+    // body of a component that the entry template defines itself and calls further down (the
+    // component-defining template IS the entry; rendered on the fly, it is the one template of the
+    // set that no registry lookup by name can find: seeded change C12-10)
+    "own-comp",
 ];
 
 /// bit masks over sites
@@ -63,7 +68,7 @@ pub const fn m(sites: &[usize]) -> u32 {
     }
     r
 }
-pub const ALL: u32 = (1 << 18) - 1;
+pub const ALL: u32 = (1 << 19) - 1;
 /// sites whose code is executed by rendering entry.html
 pub const RENDERED: u32 = ALL & !m(&[CHILD_TOP]);
 /// sites where a `{% block %}` may be written (not inside a component definition / for / if)
@@ -101,6 +106,22 @@ pub struct Planted {
 }
 
 impl Planted {
+    /// The same set with the entry template not registered but rendered on the fly (`render_str`):
+    /// the engine calls it `__tera_one_off`.
+    pub fn on_the_fly(mut self) -> Planted {
+        let rename = |n: &'static str| if n == "entry.html" { ONE_OFF } else { n };
+        for (n, _) in self.templates.iter_mut() {
+            if n == "entry.html" {
+                *n = ONE_OFF.to_string();
+            }
+        }
+        self.entry = rename(self.entry);
+        self.file = rename(self.file);
+        for c in self.calls.iter_mut() {
+            c.0 = rename(c.0);
+        }
+        self
+    }
     pub fn source(&self, name: &str) -> Option<&str> {
         self.templates.iter().find(|(n, _)| n == name).map(|(_, s)| s.as_str())
     }
@@ -115,6 +136,14 @@ fn tag_range(src: &str, tag: &str) -> Range<usize> {
 const INC1_TAG: &str = r#"{% include "inc1.html" %}"#;
 const INC2_TAG: &str = r#"{% include "inc2.html" %}"#;
 const CARD_TAG: &str = "{{ <Card /> }}";
+
+/// sites whose entry template neither extends nor holds a block: it can be given to `render_str`
+pub const ON_THE_FLY_OK: u32 = m(&[
+    TOP, INCLUDE, INCLUDE2, COMP_BODY, COMP_FROM_INCLUDE, CALL_BODY, FOR_IF, CAPTURE, INC_IN_SET, INC_IN_FILTER,
+    INC_IN_CALL_BODY, COMP_IN_CAPTURE, COMP_REENTRY, OWN_COMP,
+]);
+/// the name the engine gives to a template rendered on the fly
+pub const ONE_OFF: &str = "__tera_one_off";
 
 /// sites where the planted text runs to the end of its file (so that a snippet planted without
 /// tail is followed by the end of input)
@@ -262,6 +291,15 @@ pub fn plant(site: usize, pad: &str, snippet: &str, tail: bool) -> Planted {
             calls.push(("comps.html", 0..0));
             calls.push(("entry.html", tag_range(&entry, "{{ <Wrap2 /> }}")));
             tpls.push(("inc1.html", inc1));
+            tpls.push(("entry.html", entry));
+        }
+        OWN_COMP => {
+            let pre = format!("{{% component Own({CARD_ARGS}) %}}");
+            const OWN_TAG: &str = "{{ <Own /> }}";
+            file = "entry.html";
+            offset = at(&pre);
+            let entry = format!("{pre}{body}{{% endcomponent Own %}}\na\n😀 {OWN_TAG}\n");
+            calls.push(("entry.html", tag_range(&entry, OWN_TAG)));
             tpls.push(("entry.html", entry));
         }
         CHILD_TOP => {
